@@ -764,4 +764,10 @@ def bondRun (s : BondSt) (evs : List DEv) : BondSt := evs.foldl bondStep s
 /-- `findnode.handle`: answered with neighbors iff `db.hasBond(fromID)`; otherwise `errUnknownNode`. -/
 def findnodeServed (s : BondSt) (id : Bytes) : Bool := s.bonded.contains id
 
+/-- Spec of a sub-protocol payload consumer behind the handler (`downloader.queue.DeliverHeaders` and its siblings):
+    total — a delivery that was requested (`pending`) and maps onto what was asked for is accepted, every other one is
+    refused with an error; there is no third outcome. -/
+def deliverSpec (pending mapsOntoRequest : Bool) : Out Unit :=
+  if pending && mapsOntoRequest then .ok () else .err .decode
+
 end Aqv.Net
